@@ -151,8 +151,27 @@ func New(cfg Cfg) *World {
 	if cfg.Files != nil {
 		cfg.Files(w.FileRoot)
 	}
+	FreezeTimes(w.Dir)
 	w.Start()
 	return w
+}
+
+// FixedMTime is the modification time given to every fixture entry (file dates appear in info forks
+// and replies; the real clock must not leak into observations).
+var FixedMTime = time.Date(2024, time.January, 2, 3, 4, 5, 0, time.Local)
+
+// FreezeTimes sets the modification time of every entry under root to FixedMTime.
+func FreezeTimes(root string) {
+	var paths []string
+	_ = filepath.Walk(root, func(p string, info os.FileInfo, err error) error {
+		if err == nil && info.Mode()&os.ModeSymlink == 0 {
+			paths = append(paths, p)
+		}
+		return nil
+	})
+	for i := len(paths) - 1; i >= 0; i-- {
+		_ = os.Chtimes(paths[i], FixedMTime, FixedMTime)
+	}
 }
 
 // Start constructs the server and stores over the existing directory (also used for "restart").
